@@ -25,7 +25,7 @@ WORKERS = {"quick": 4, "thorough": 16}
 BACKREFS = {"parent", "project", "pattern", "module", "metamodule"}
 
 
-def plan(tier, seed):
+def _plan_core(tier, seed):
     types = sorted(spec.load())
     n = 4 if tier == "quick" else 16
     return [{"tier": tier, "seed": seed, "shard": i, "types": types[i::n], "edits": 60 if tier == "quick" else 200,
@@ -328,6 +328,11 @@ def run_containers(res, spec_, rng):
 
 
 def run_shard(spec_, res):
+    if spec_.get("part") == "soak":
+        from .. import soak
+        for s_ in spec_["soak_seeds"]:
+            soak.run(res, s_, spec_["tier"], PROPERTY, SOAK_KINDS, spec_["steps"])
+        return
     import rv.api as api
     from rv.modules import MODULE_CLASSES
     monitors.install()
@@ -363,3 +368,16 @@ def finalize(merged, tier):
 
 def replay(case, res):
     res.inconclusive.append("replay by re-running the shard; type, B-kind and attribute path are in the replay file")
+
+
+# ------------------------------------------------------------------ soak slice (rvmon.soak): long mixed histories on a pool of objects
+SOAK_KINDS = ['isolation']
+
+
+def plan(tier, seed):
+    specs = _plan_core(tier, seed)
+    k = 2 if tier == "quick" else 8
+    for i in range(k):
+        specs.append({"tier": tier, "part": "soak", "soak_seeds": [seed * 100003 + 1000 * i + j for j in range(8 if tier == "quick" else 40)],
+                      "steps": 150 if tier == "quick" else 300, "seed": seed, "shard": 1000 + i})
+    return specs
